@@ -87,6 +87,14 @@ type Program struct {
 	Den  []Den  `json:"den"`
 }
 
+// WordText is the static text of a word id.
+func WordText(id string) string {
+	if t, ok := WordTexts[id]; ok {
+		return t
+	}
+	return id
+}
+
 func ParseProgram(line []byte) (Program, error) {
 	var p Program
 	err := json.Unmarshal(line, &p)
@@ -102,7 +110,11 @@ var (
 	ConstDecoded = map[string]string{"k1": "v1", "k2": "a&b<c", "k3": `q"q`, "k4": "x&lt;y&#39;", "k5": "/e?a=1&copy=2&lt=3"}
 	constDQ      = map[string]string{"k1": "v1", "k2": "a&amp;b&lt;c", "k3": `q&quot;q`, "k4": "x&amp;lt;y&amp;#39;", "k5": "/e?a=1&amp;copy=2&amp;lt=3"}
 	constSQ      = map[string]string{"k1": "v1", "k2": "a&amp;b&lt;c", "k3": `q"q`, "k4": "x&amp;lt;y&amp;#39;", "k5": "/e?a=1&amp;copy=2&amp;lt=3"}
-	RawContents  = map[string]string{"style": "p{color:red}", "script": "var x = 1 < 2 && 3 > 2;"}
+	// WordTexts maps word ids to their text where it is not the id itself: w3 carries the characters that need
+	// escaping when static text is written into a Go string literal of the generated code (quote, backslash,
+	// backtick, non-ASCII, a control-free multi-byte dash) -- no whitespace and none of < { }.
+	WordTexts   = map[string]string{"w3": "q\"b\\c`–é"}
+	RawContents = map[string]string{"style": "p{color:red}", "script": "var x = 1 < 2 && 3 > 2;"}
 )
 
 // Variant selects one concrete spelling of the same abstract program.
@@ -283,7 +295,7 @@ func (p *printer) node(n Node, depth int) {
 	case "text":
 		// a text's value runs up to the next tag, brace or line break and keeps its trailing spaces verbatim,
 		// so the spelling variants do not vary the whitespace that belongs to the value
-		p.sb.WriteString(n.W)
+		p.sb.WriteString(WordText(n.W))
 		switch {
 		case n.Tr == "h":
 			p.sb.WriteString(" ")
